@@ -1,3 +1,4 @@
+import KeepVerif.Gen.C15
 /-!
 # C15 model: `AsyncMachine.Execute` / `asyncStateTransition` (pkg/protocol/state/async_machine.go)
 and the message history of `BaseAsyncState` (pkg/protocol/state/state.go)
